@@ -26,6 +26,8 @@ def jobs(tier, seed, pool):
 
     def add(init, raw, edits_=None, fail_at=None, kind='sample', big=False):
         p = {'property': PROP, 'profile': 'resave', 'init': init, 'raw': raw, 'battery_salt': seed % 1000, 'timeout_s': 60 if big else 20}
+        if Rng(seed, PROP, 'save-first', len(out)).chance(0.4):
+            p['save_first'] = True   # the first save precedes every query: read-only queries between saves must not change what is saved
         if edits_:
             p['edits'] = edits_
         if fail_at is not None:
